@@ -1,6 +1,9 @@
 package props
 
 import (
+	"go/token"
+	"go/types"
+
 	"godcheck/core"
 
 	"golang.org/x/tools/go/ssa"
@@ -21,6 +24,16 @@ import (
 //        (c19ListedScan): the ==/!= tests of a name derived from the Glob result with a value
 //        derived from DailyRotateRule.filename that guard a place where the name is handed on,
 //        directly or in an in-package helper the name is passed to.
+
+//  D4/K9 boundary-in-listed-form
+//        the same fact on the other comparison OutdatedFiles makes with the listed names: the
+//        retention boundary they are ordered against (names are compared as strings) must be in
+//        cleaned form too, as far as it is made of the rule's file name – otherwise, for a file
+//        name that is not in cleaned form, the order is decided by the differing prefix and not by
+//        the date: every backup is outdated (the newest included) or none ever is. The boundary is
+//        found as in D4/K9/backup-names-agree (the operand of a string order comparison that
+//        derives from the clock while the other derives from filepath.Glob); "made of the file name
+//        without cleaning" is the ingredient walk of that rule stopped at cleaning calls.
 
 // c19IsCleanCall: a call whose result is a path in cleaned form.
 func c19IsCleanCall(v ssa.Value) (*ssa.Call, bool) {
@@ -66,6 +79,68 @@ func c19FieldAlwaysCleaned(p *core.Prog, pkg, field string) (stores int, raw *ss
 func c19R10(r *core.Run, pkg string) {
 	p := r.P
 	const field = "DailyRotateRule.filename"
+
+	r.Check("D4/K9/boundary-in-listed-form", "per rotate rule, the retention boundary the names listed by filepath.Glob are ordered against (string comparison) is, as far as it is built from the rule's file name, in the form Glob lists names in – cleaned: no path from the file-name field to the boundary operand avoids filepath.Clean/Join, or every value written to the field has passed one [clean-up clause – only backups older than the retention days, never the newest, for every configured file name: Glob returns filepath.Join(dir, match); against a boundary that starts with the file name as configured (./logs/app.log, logs//app.log, z/../logs/app.log) the comparison is decided by the differing prefix, not by the date – every listed backup orders below the boundary and the clean-up removes all of them, the one just made included, or every one orders above it and none is ever removed]", func(o *core.O) {
+		rules := c19RuleTypes(p, pkg)
+		if !o.Need(len(rules) > 0, "a struct type of "+pkg+" implementing RotateRule") {
+			return
+		}
+		w := c19NewIngWalker(p, pkg)
+		raw := c19NewIngWalker(p, pkg)
+		raw.stop = func(c *ssa.Call) bool { _, clean := c19IsCleanCall(c); return clean }
+		nStores, rawStore := c19FieldAlwaysCleaned(p, pkg, field)
+		fieldClean := nStores > 0 && rawStore == nil
+		isOrder := func(op token.Token) bool {
+			return op == token.LSS || op == token.GTR || op == token.LEQ || op == token.GEQ
+		}
+		isString := func(v ssa.Value) bool {
+			b, ok := v.Type().Underlying().(*types.Basic)
+			return ok && b.Info()&types.IsString != 0
+		}
+		reported := map[ssa.Instruction]bool{}
+		for _, rt := range rules {
+			n, named := 0, 0
+			for _, g := range w.reachable(rt.outdated, 3) {
+				for _, in := range core.Instrs(g, func(in ssa.Instruction) bool {
+					b, ok := in.(*ssa.BinOp)
+					return ok && isOrder(b.Op) && isString(b.X) && isString(b.Y)
+				}) {
+					b := in.(*ssa.BinOp)
+					x, y := w.of(b.X), w.of(b.Y)
+					var bound ssa.Value
+					switch {
+					case x.glob && !x.clock && y.clock && !y.glob:
+						bound = b.Y
+					case y.glob && !y.clock && x.clock && !x.glob:
+						bound = b.X
+					default:
+						continue
+					}
+					n++
+					if !w.of(bound).fields[field] {
+						continue // not made of the file name at all: D4/K9/backup-names-agree
+					}
+					named++
+					r.Fn(core.FuncName(g))
+					if fieldClean || reported[in] || !raw.of(bound).fields[field] {
+						continue
+					}
+					reported[in] = true
+					why := "no function of the package writes the field"
+					if rawStore != nil {
+						why = core.FuncName(rawStore.Parent()) + " stores the name as configured, " + p.InstrPos(rawStore)
+					}
+					o.Fail(p.InstrPos(in), "%s: %s orders the names listed by filepath.Glob against a retention boundary that is built from the rule's file name as it was configured, without filepath.Clean on the way (%s): Glob lists cleaned paths, so for a file name such as ./logs/app.log or z/../logs/app.log the comparison is decided by the prefix and not by the date – no backup is ever outdated, or every backup is, the one made by this rotation included, and the clean-up removes it", rt.name, core.FuncName(g), why)
+				}
+			}
+			o.Site(named, rt.name)
+			if n == 0 {
+				o.Unres("%s: no comparison of a listed backup name with a retention boundary derived from the clock was found in OutdatedFiles", rt.name)
+			} else if named == 0 {
+				o.Unres("%s: no retention boundary built from the rule's file name", rt.name)
+			}
+		}
+	})
 
 	r.Check("D4/K2/current-file-compared-in-listed-form", "per rotate rule, the comparison by which OutdatedFiles tells the current log file from the names listed by filepath.Glob compares the rule's own file name in the form Glob lists names in – cleaned: the file-name operand has passed filepath.Clean (or Join) on its way from the rule field to the comparison, or every value written to the field has [clean-up clause – never the current file, for every configured file name: Glob returns filepath.Join(dir, match), a cleaned path, so a file name configured as ./logs/app.log or logs//app.log compared as it is equals none of the listed names; the guard never recognises the current file, with an empty delimiter it is listed as outdated – it orders below every boundary and before every backup – and the clean-up unlinks the file being written, every later record is in no file]", func(o *core.O) {
 		rules := c19RuleTypes(p, pkg)
